@@ -54,7 +54,7 @@ Definition simnbr_row (s : @nbr R A G) (l : @lp R A G) (quick : bool) (raw : lis
   | Some [] =>
       if negb (nnprob_len_ok s) then None else
       let (v, _) := draw_z RG g (RqChoice (length (n_arms s)) (n_nnprob s)) in
-      Some ((nth_error (n_arms s) (Z.to_nat (match v with x :: _ => x | [] => 0%Z end)), ([], []), O), l)
+      Some ((nth_error (n_arms s) (Z.to_nat (match v with x :: _ => x | [] => 0%Z end)), (n_exp s, []), O), l)
   | Some idx =>
       let ds := map (fun i => nth_error (n_ds s) i) idx in
       let ds' := flat_map (fun o => match o with Some a => [a] | None => [] end) ds in
